@@ -3,7 +3,16 @@
 (* (and, for CC, the position of the LO delta) against the thresholds computed here.                                 *)
 EXTENDS Thresholds, TLC, Json, IOUtils
 TraceLog == ndJsonDeserialize(IOEnv.TRACE_FILE)
-Judge(L) ==
+\* "blind" lines: the loop of the second massive quark (bottom, NfFF = 3) isolated by a mass difference, against the loop of the
+\* first (charm) at the same mass: none at or below the pair threshold, the same above it (Theorems.C09_MissingIsFlavourBlind)
+JudgeBlind(L) ==
+  LET closed == BelowPair(L.x, L.Q2, L.m2) IN
+  IF L.outcome # "OK" THEN "outcome_" \o L.outcome
+  ELSE IF closed /\ ~L.all_zero THEN "missing_channel_contributes_below_threshold"
+  ELSE IF ~closed /\ L.all_zero THEN "missing_channel_absent_above_its_threshold"
+  ELSE IF L.delta_milli > 1000 THEN "missing_channel_depends_on_the_quark_beyond_its_mass"
+  ELSE "ok"
+JudgeMain(L) ==
   LET empty == IF L.proc = "NC" THEN BelowPair(L.x, L.Q2, L.m2) ELSE CCEmpty(L.x, L.Q2, L.m2) IN
   IF L.outcome # "OK" THEN "outcome_" \o L.outcome
   ELSE IF empty /\ ~L.all_zero THEN "contribution_below_threshold"
@@ -13,6 +22,7 @@ Judge(L) ==
   ELSE IF L.proc = "CC" /\ ~empty /\ L.chi # Chi(L.x, L.Q2, L.m2) THEN "wrong_rescaling_variable_in_spec_echo"
   ELSE IF L.proc = "CC" /\ ~empty /\ L.delta_milli > 1000 THEN "LO_not_at_the_slow_rescaling_point"
   ELSE "ok"
+Judge(L) == IF L.proc = "blind" THEN JudgeBlind(L) ELSE JudgeMain(L)
 VARIABLE l
 Init == l = 1
 Next == /\ l <= Len(TraceLog)
